@@ -1,7 +1,491 @@
+import VivModel.Model.Util
 import VivModel.Model.Table
+import VivModel.Lemmas.Table
+import VivModel.Props.C11
+/-! C13 — creating simulants adds fresh rows and disturbs nobody.
+
+`createBegin` / `createEnd` are the two halves of `PopulationManager._create_simulants` (grow the
+table with `reindex`, hand `new_index.difference(old_index)` to the initializers, clear the flags);
+the initializers' writes are ordinary `update`s made while the flags are set.
+
+* `create_labels`             the labels returned are `n, …, n+k-1` where `n` is the current size;
+* `create_never_reused`       over ANY history of creations, updates (untracking included) and ends of
+                              creations, no label is ever handed out twice (induction, invariant
+                              `rows = range n`);
+* `create_preserves_existing` growing the table leaves every existing cell as it was (int cells are
+                              shown as floats until the initializers have filled the new rows – pandas
+                              has no integer NaN – with the same numeric value);
+* `create_zero`               creating nobody returns no labels and leaves the table alone;
+* `new_columns_only_initial`  outside the initial creation no update ever changes the set of columns;
+                              at a birth an update that brings a new column is rejected;
+* `conflicting_initial_rejected` / `conflicting_birth_rejected`.
+
+NOT claimed: atomicity of a creation as a whole (DESIGN.md C13). -/
 namespace Viv.Props.C13
 open Viv.Table
 
-theorem placeholder_C13 : (createBegin {} 0).2 = [] := by decide
+theorem table_createBegin (m : Mgr) (k : Nat) :
+    (createBegin m k).1.table = reindex m.table (List.range (m.table.rows.length + k)) := rfl
+
+/-- **Labels.** With `n` simulants in the table, creating `k` returns exactly `n, n+1, …, n+k-1` and
+the table's index becomes `0 … n+k-1`. -/
+theorem create_labels {m : Mgr} {n : Nat} (k : Nat) (h : m.table.rows = List.range n) :
+    (createBegin m k).2 = (List.range k).map (fun x => n + x) ∧
+    (createBegin m k).1.table.rows = List.range (n + k) := by
+  constructor
+  · unfold createBegin
+    simp only [h, List.length_range]
+    rw [List.range_add, List.filter_append]
+    have h1 : (List.range n).filter (fun r => !(List.range n).contains r) = [] := by
+      rw [List.filter_eq_nil_iff]
+      intro a ha; simp [ha]
+    have h2 : ((List.range k).map (fun x => n + x)).filter (fun r => !(List.range n).contains r)
+        = (List.range k).map (fun x => n + x) := by
+      rw [List.filter_eq_self]
+      intro a ha
+      obtain ⟨x, _, rfl⟩ := List.mem_map.mp ha
+      simp [List.mem_range]
+    rw [h1, h2]; rfl
+  · rw [table_createBegin, h, List.length_range]; rfl
+
+/-- the labels are fresh (not in the table before), distinct and consecutive -/
+theorem create_labels_fresh {m : Mgr} {n : Nat} (k : Nat) (h : m.table.rows = List.range n) :
+    (∀ l ∈ (createBegin m k).2, l ∉ m.table.rows) ∧ (createBegin m k).2.Nodup ∧
+    (createBegin m k).2.length = k := by
+  rw [(create_labels k h).1, h]
+  refine ⟨?_, ?_, by simp⟩
+  · intro l hl
+    obtain ⟨x, _, rfl⟩ := List.mem_map.mp hl
+    simp [List.mem_range]
+  · rw [← List.range'_eq_map_range]; exact List.nodup_range'
+
+/-- every successful update, in every mode, leaves the rows and their order alone -/
+theorem update_rows {m m' : Mgr} {v : View} {u : Upd} (h : update m v u = .ok m') :
+    m'.table.rows = m.table.rows := by
+  cases hi : m.initial with
+  | false =>
+    obtain ⟨f, _, _, hcase⟩ := update_ok_normal hi h
+    rcases hcase with ⟨_, rfl⟩ | ⟨_, t', hw, rfl⟩
+    · rfl
+    · obtain ⟨_, _, _, hr⟩ := writeAll_ok hw
+      exact hr
+  | true =>
+    unfold update at h
+    simp only [hi] at h
+    split at h
+    · cases h
+    · split at h
+      · cases h
+      · simp only [if_true] at h
+        cases h; rfl
+
+theorem applyUpdate_rows (m : Mgr) (v : View) (u : Upd) : (applyUpdate m v u).1.table.rows = m.table.rows := by
+  unfold applyUpdate
+  cases h : update m v u with
+  | ok m' => exact update_rows h
+  | error e => rfl
+
+/-- the invariant behind freshness: along any history the index is `0 … n-1`, and every label handed
+out later is `≥ n` and distinct from all others -/
+theorem runOps_fresh : ∀ (ops : List Op) (m : Mgr) (n : Nat), m.table.rows = List.range n →
+    (∀ l ∈ (runOps m ops).2.flatten, n ≤ l) ∧ (runOps m ops).2.flatten.Nodup
+  | [], _, _, _ => by simp [runOps]
+  | .create k :: ops, m, n, h => by
+    obtain ⟨hl, hr⟩ := create_labels k h
+    obtain ⟨ih1, ih2⟩ := runOps_fresh ops (createBegin m k).1 (n + k) hr
+    have e : (runOps m (.create k :: ops)).2 = (createBegin m k).2 :: (runOps (createBegin m k).1 ops).2 := rfl
+    rw [e, List.flatten_cons, hl]
+    constructor
+    · intro l hmem
+      rcases List.mem_append.mp hmem with hm | hm
+      · obtain ⟨x, _, rfl⟩ := List.mem_map.mp hm; omega
+      · have := ih1 l hm; omega
+    · rw [List.nodup_append]
+      refine ⟨by rw [← List.range'_eq_map_range]; exact List.nodup_range', ih2, ?_⟩
+      intro a ha b hb
+      obtain ⟨x, hx, rfl⟩ := List.mem_map.mp ha
+      have := ih1 b hb
+      have := List.mem_range.mp hx
+      omega
+  | .upd v u :: ops, m, n, h => by
+    have e : runOps m (.upd v u :: ops) = runOps (applyUpdate m v u).1 ops := rfl
+    rw [e]
+    exact runOps_fresh ops _ n (by rw [applyUpdate_rows]; exact h)
+  | .endCreate :: ops, m, n, h => by
+    have e : runOps m (.endCreate :: ops) = runOps (createEnd m) ops := rfl
+    rw [e]
+    exact runOps_fresh ops _ n h
+
+/-- **Labels are never reused.** Starting from a fresh population manager, over any history of
+creations (of any size, zero included), updates from anybody (untracking is one) – accepted or
+rejected – and ends of creations, all labels ever handed out are pairwise distinct. -/
+theorem create_never_reused (ops : List Op) : (runOps {} ops).2.flatten.Nodup :=
+  (runOps_fresh ops {} 0 rfl).2
+
+/-- what growing does to one existing cell: nothing, except that an int is shown as the same number
+in float form while the column has unfilled rows -/
+def grown (grows : Bool) (d : Dtype) (v : Val) : Val := if grows && d = .int then toFlt v else v
+
+theorem grown_same_number (i : Int) : grown true .int (.int i) = .flt i 0 := rfl
+
+theorem grown_other (grows : Bool) (d : Dtype) (v : Val) (h : d ≠ .int ∨ grows = false) : grown grows d v = v := by
+  unfold grown
+  rcases h with h | h
+  · simp [h]
+  · simp [h]
+
+theorem idxOf_range {n r : Nat} (h : r < n) : (List.range n).idxOf r = r := by
+  have hnd : (List.range n).Nodup := List.nodup_range
+  have hlen : r < (List.range n).length := by simpa using h
+  have := idxOf_getElem_nodup hnd r hlen
+  simpa using this
+
+theorem reindex_col? (t : Table) (newIndex : List Nat) (c : String) :
+    (reindex t newIndex).col? c =
+      (t.col? c).map (reindexCol t.rows newIndex (newIndex.any (fun r => !t.rows.contains r))) := by
+  unfold Table.col? reindex
+  exact find?_map_key (fun k : Col => k.name) _ c t.cols (fun _ _ => rfl)
+
+/-- the table grows iff somebody is created -/
+theorem grows_iff (n k : Nat) :
+    (List.range (n + k)).any (fun r => !(List.range n).contains r) = decide (0 < k) := by
+  rw [Bool.eq_iff_iff]
+  simp only [List.any_eq_true, decide_eq_true_eq]
+  constructor
+  · rintro ⟨x, hx, hnx⟩
+    have := List.mem_range.mp hx
+    have : ¬ x < n := by simpa [List.mem_range] using hnx
+    omega
+  · intro hk
+    exact ⟨n, List.mem_range.mpr (by omega), by simp [List.mem_range]⟩
+
+/-- **Existing simulants are not disturbed by the creation itself.** After the table has grown by `k`
+rows, every cell of every existing simulant holds what it held before; the column names and their
+order are unchanged. -/
+theorem create_preserves_existing {m : Mgr} {n : Nat} (k : Nat) (hwf : m.table.WF)
+    (h : m.table.rows = List.range n) (c : Col) (hc : c ∈ m.table.cols) (r : Nat) (hr : r < n) :
+    ∃ v, m.table.cell? r c.name = some v ∧
+      (createBegin m k).1.table.cell? r c.name = some (grown (decide (0 < k)) c.dtype v) ∧
+      (createBegin m k).1.table.names = m.table.names := by
+  have hrm : r ∈ m.table.rows := by rw [h]; exact List.mem_range.mpr hr
+  obtain ⟨v, hv⟩ := cellOf_isSome hrm (hwf.lens c hc)
+  refine ⟨v, ?_, ?_, ?_⟩
+  · unfold Table.cell?; rw [col?_of_mem hwf.namesNodup hc]; exact hv
+  · rw [table_createBegin, h, List.length_range]
+    unfold Table.cell?
+    rw [reindex_col?, col?_of_mem hwf.namesNodup hc]
+    simp only [Option.map_some, reindex, reindexCol]
+    have hr' : r ∈ List.range (n + k) := List.mem_range.mpr (by omega)
+    rw [cellOf_of_mem hr', idxOf_range (by omega : r < n + k)]
+    rw [List.getElem?_map, List.getElem?_range (by omega : r < n + k)]
+    simp only [Option.map_some]
+    rw [hv, h, grows_iff]
+    rfl
+  · rw [table_createBegin]
+    unfold Table.names reindex
+    simp only [List.map_map]
+    rfl
+
+theorem map_cellOf_range {n : Nat} {cells : List Val} (hl : cells.length = n) :
+    (List.range n).map (fun r => (cellOf (List.range n) cells r).getD .null) = cells := by
+  apply List.ext_getElem?
+  intro i
+  by_cases hi : i < n
+  · rw [List.getElem?_map, List.getElem?_range hi]
+    simp only [Option.map_some]
+    rw [cellOf_of_mem (List.mem_range.mpr hi), idxOf_range hi]
+    have : i < cells.length := by omega
+    simp [List.getElem?_eq_getElem this]
+  · have h1 : cells.length ≤ i := by omega
+    have h2 : ((List.range n).map (fun r => (cellOf (List.range n) cells r).getD Val.null)).length ≤ i := by
+      simp; omega
+    rw [List.getElem?_eq_none h1, List.getElem?_eq_none h2]
+
+/-- **Creating nobody.** `creator(0)` returns no labels and leaves the table exactly as it was (values
+and dtypes); only the `adding_simulants` flag is raised for the (empty) initializer round. -/
+theorem create_zero {m : Mgr} {n : Nat} (hwf : m.table.WF) (h : m.table.rows = List.range n) :
+    (createBegin m 0).2 = [] ∧ (createBegin m 0).1.table = m.table := by
+  refine ⟨by rw [(create_labels 0 h).1]; rfl, ?_⟩
+  rw [table_createBegin, h, List.length_range]
+  unfold reindex
+  rw [h, grows_iff n 0]
+  apply table_ext
+  · exact h.symm
+  · have : ∀ c ∈ m.table.cols, reindexCol (List.range n) (List.range (n + 0)) (decide (0 < 0)) c = c := by
+      intro c hc
+      have hl : c.cells.length = n := by rw [hwf.lens c hc, h, List.length_range]
+      unfold reindexCol
+      simp only [Nat.lt_irrefl, decide_false, Bool.false_and, Bool.false_eq_true, if_false, Nat.add_zero]
+      rw [map_cellOf_range hl]
+    calc m.table.cols.map _ = m.table.cols.map id := List.map_congr_left this
+      _ = m.table.cols := List.map_id _
+
+theorem foldl_repl_name (news : List Col) (k : Col) : (news.foldl repl k).name = k.name := by
+  induction news generalizing k with
+  | nil => rfl
+  | cons n ns ih =>
+    simp only [List.foldl_cons]
+    rw [ih]
+    unfold repl
+    by_cases e : (k.name == n.name) = true
+    · simp only [e, if_true]; exact (by simpa using e : k.name = n.name).symm
+    · simp only [e]; rfl
+
+/-- **New columns only while the initial population is built.** Outside the initial creation – on a time
+step or at a birth – no accepted update ever changes the columns of the table (names and order). -/
+theorem new_columns_only_initial {m m' : Mgr} {v : View} {u : Upd} (hi : m.initial = false)
+    (h : update m v u = .ok m') : m'.table.names = m.table.names := by
+  obtain ⟨f, _, _, hcase⟩ := update_ok_normal hi h
+  rcases hcase with ⟨_, rfl⟩ | ⟨_, t', hw, rfl⟩
+  · rfl
+  · obtain ⟨news, _, hcols, _⟩ := writeAll_ok hw
+    rw [table_of_pop]
+    unfold Table.names
+    rw [hcols, List.map_map]
+    apply List.map_congr_left
+    intro k _
+    exact foldl_repl_name news k
+
+/-- … and while the initial population is built an accepted update only *appends* the columns it brings
+that the table does not have yet, filled by label; the existing columns and the rows stay as they are -/
+theorem initial_update_appends {m m' : Mgr} {v : View} {u : Upd} (hi : m.initial = true)
+    (h : update m v u = .ok m') :
+    ∃ f, coerce u (viewColumns m.table v) = .ok f ∧
+      m'.table.rows = m.table.rows ∧
+      m'.table.cols = m.table.cols ++ (f.cols.filter (fun c => (m.table.col? c.name).isNone)).map
+        (fun c => (⟨c.name, c.dtype, locCells f.rows c.vals m.table.rows⟩ : Col)) := by
+  unfold update at h
+  simp only [hi] at h
+  split at h
+  · cases h
+  · rename_i f hf
+    split at h
+    · cases h
+    · simp only [if_true] at h
+      cases h
+      exact ⟨f, hf, rfl, rfl⟩
+
+/-- a birth (a creation once a population exists) is not an initial creation … -/
+theorem birth_not_initial {m : Mgr} {t : Table} (hp : m.pop = some t) (hi : m.initial = false) (k : Nat) :
+    (createBegin m k).1.initial = false ∧ (createBegin m k).1.adding = true := by
+  unfold createBegin
+  simp [hp, hi]
+
+/-- … so an initializer that brings a new column at a birth is rejected, and its update writes nothing -/
+theorem new_column_at_birth_rejected {m : Mgr} {t : Table} (hp : m.pop = some t) (hi : m.initial = false)
+    (k : Nat) {v : View} {u : Upd} {f : Frame}
+    (hc : coerce u (viewColumns (createBegin m k).1.table v) = .ok f)
+    (hrows : ∀ r ∈ f.rows, r ∈ (createBegin m k).1.table.rows)
+    (h : ∃ c ∈ f.cols, c.name ∉ (createBegin m k).1.table.names) :
+    applyUpdate (createBegin m k).1 v u = ((createBegin m k).1, some .newColumn) :=
+  C11.rejected_new_column hc (birth_not_initial hp hi k).1 hrows h
+
+/-- the very first creation is the initial one -/
+theorem first_creation_initial (k : Nat) : (createBegin {} k).1.initial = true ∧ (createBegin {} k).1.adding = true :=
+  ⟨rfl, rfl⟩
+
+/-- **Conflicting initial values are rejected.** While the initial population is built, an update that
+carries a column some other component has already created, with a different index order, dtype or
+values, is rejected – whatever else it contains. -/
+theorem conflicting_initial_rejected {m : Mgr} {v : View} {u : Upd} {f : Frame} (hi : m.initial = true)
+    (hc : coerce u (viewColumns m.table v) = .ok f)
+    (h : ∃ c ∈ f.cols, ∃ k, m.table.col? c.name = some k ∧
+      (f.rows ≠ m.table.rows ∨ c.dtype ≠ k.dtype ∨ c.vals ≠ k.cells)) :
+    ∃ e, applyUpdate m v u = (m, some e) := by
+  have hpre : ∃ e, precheck m.table m.initial m.adding f = .error e := by
+    unfold precheck
+    split
+    · exact ⟨_, rfl⟩
+    · unfold coherentInit
+      split
+      · exact ⟨_, rfl⟩
+      · split
+        · exact ⟨_, rfl⟩
+        · obtain ⟨c, hcm, k, hk, hdiff⟩ := h
+          refine ⟨.conflict, ?_⟩
+          split
+          · rfl
+          · rename_i hno
+            exfalso
+            apply hno
+            simp only [List.any_eq_true]
+            refine ⟨c, hcm, ?_⟩
+            rw [hk]
+            simp only [seriesEquals, Bool.not_eq_true', Bool.and_eq_false_iff, decide_eq_false_iff_not]
+            rcases hdiff with h1 | h2 | h3
+            · exact Or.inl (Or.inl h1)
+            · exact Or.inl (Or.inr h2)
+            · exact Or.inr h3
+  obtain ⟨e, he⟩ := hpre
+  exact ⟨e, C11.update_rejected_unchanged (update_precheck_error hc he)⟩
+
+/-- **… and at a birth**: once one component has filled a column for the new simulants, a second
+component supplying other values (or another dtype / order) for them is rejected -/
+theorem conflicting_birth_rejected {m : Mgr} {v : View} {u : Upd} {f : Frame} (hi : m.initial = false)
+    (ha : m.adding = true) (hc : coerce u (viewColumns m.table v) = .ok f)
+    (hrows : ∀ r ∈ f.rows, r ∈ m.table.rows) (hcols : ∀ c ∈ f.cols, c.name ∈ m.table.names)
+    (h : ∃ c ∈ f.cols, conflicting m.table f c = true) :
+    applyUpdate m v u = (m, some .conflict) := by
+  apply C11.update_rejected_unchanged
+  apply update_precheck_error hc
+  unfold precheck
+  have h1 : (f.rows.any fun r => !m.table.rows.contains r) = false := by
+    simp only [List.any_eq_false]
+    intro r hr; simpa using hrows r hr
+  have h2 : (f.cols.any fun c => (m.table.col? c.name).isNone) = false := by
+    simp only [List.any_eq_false]
+    intro c hcm
+    cases hk : m.table.col? c.name with
+    | none => exact absurd (hcols c hcm) (col?_none_iff.mp hk)
+    | some k => simp
+  have h3 : (m.adding && f.cols.any (conflicting m.table f)) = true := by
+    obtain ⟨c, hcm, hcf⟩ := h
+    simp only [ha, Bool.true_and, List.any_eq_true]
+    exact ⟨c, hcm, hcf⟩
+  rw [h1, hi, h2, h3]
+  rfl
+
+/-! ### Filling the new rows gives the existing simulants their exact old state back
+
+While a birth is in progress an `int64` column is shown as `float64` and a `bool` column as `object`
+(pandas has no integer / boolean NaN).  The initializer that owns the column writes the new simulants'
+values with the column's own dtype; `_update_column_and_ensure_dtype` then casts the whole column
+back.  These theorems say that the cast back is exact for the existing simulants. -/
+
+theorem cellOf_range_map {n : Nat} (g : Nat → Val) {r : Nat} (hr : r < n) :
+    cellOf (List.range n) ((List.range n).map g) r = some (g r) := by
+  rw [cellOf_of_mem (List.mem_range.mpr hr), idxOf_range hr, List.getElem?_map, List.getElem?_range hr]
+  rfl
+
+/-- an `int` column: grown, then filled by its owner for exactly the new simulants -/
+theorem create_fill_restores_int {n k : Nat} {old : Col} (hd : old.dtype = .int) (hl : old.cells.length = n)
+    (hty : ∀ v ∈ old.cells, ∃ i, v = .int i)
+    {urows : List Nat} {u : UCol} (hu : u.dtype = .int) (hund : urows.Nodup)
+    (hcover : ∀ r, r ∈ urows ↔ n ≤ r ∧ r < n + k) (hul : u.vals.length = urows.length)
+    (huty : ∀ v ∈ u.vals, ∃ i, v = .int i) :
+    ∃ res, updateColumn (List.range (n + k)) (reindexCol (List.range n) (List.range (n + k)) true old) urows u true
+        = .ok res ∧
+      res.name = old.name ∧ res.dtype = .int ∧
+      (∀ r, r < n → cellOf (List.range (n + k)) res.cells r = cellOf (List.range n) old.cells r) ∧
+      (∀ r ∈ urows, cellOf (List.range (n + k)) res.cells r = cellOf urows u.vals r) := by
+  let base : List Val := (List.range (n + k)).map (fun r => (cellOf (List.range n) old.cells r).getD .null)
+  have hcells : (reindexCol (List.range n) (List.range (n + k)) true old).cells = base.map toFlt := by
+    simp only [reindexCol, hd, base, List.map_map]
+    apply List.map_congr_left
+    intro r _
+    simp
+  have hud : ∀ v, (∃ i, v = Val.int i) → toInt (toFlt v) = .ok v := by
+    rintro v ⟨i, rfl⟩
+    simp [toFlt, toInt]
+  have hbase : ∀ r ∈ List.range (n + k), r ∉ urows →
+      ∃ v, cellOf (List.range (n + k)) base r = some v ∧ ∃ i, v = Val.int i := by
+    intro r hr hnu
+    have hr' : r < n + k := List.mem_range.mp hr
+    have hrn : r < n := by
+      have : ¬ (n ≤ r ∧ r < n + k) := fun h => hnu ((hcover r).mpr h)
+      omega
+    obtain ⟨v, hv⟩ := cellOf_isSome (List.mem_range.mpr hrn) (by rw [hl, List.length_range])
+    refine ⟨v, ?_, hty v (mem_of_cellOf hv)⟩
+    rw [cellOf_range_map _ hr', hv]; rfl
+  obtain ⟨out, hout, _, hcell⟩ := fill_roundtrip hud List.nodup_range (by simp [base]) hund
+    (fun r hr => List.mem_range.mpr ((hcover r).mp hr).2) hul hbase huty
+  refine ⟨⟨old.name, .int, out⟩, ?_, rfl, rfl, ?_, ?_⟩
+  · unfold updateColumn
+    have hcd : (reindexCol (List.range n) (List.range (n + k)) true old).dtype = .flt := by
+      simp [reindexCol, hd, promote]
+    rw [hcd, hu, hcells]
+    simp only [reduceCtorEq, if_false, Bool.not_true, Bool.false_eq_true, hout]
+    rfl
+  · intro r hr
+    have hnu : r ∉ urows := fun h => by have := (hcover r).mp h; omega
+    rw [hcell r, if_neg hnu, cellOf_range_map _ (by omega : r < n + k)]
+    obtain ⟨v, hv⟩ := cellOf_isSome (List.mem_range.mpr hr) (by rw [hl, List.length_range] : old.cells.length = (List.range n).length)
+    rw [hv]; rfl
+  · intro r hr
+    rw [hcell r, if_pos hr]
+
+/-- a `bool` column (the manager's own `tracked` column is one): grown, then filled by its owner -/
+theorem create_fill_restores_bool {n k : Nat} {old : Col} (hd : old.dtype = .bool) (hl : old.cells.length = n)
+    (hty : ∀ v ∈ old.cells, ∃ b, v = .bool b)
+    {urows : List Nat} {u : UCol} (hu : u.dtype = .bool) (hund : urows.Nodup)
+    (hcover : ∀ r, r ∈ urows ↔ n ≤ r ∧ r < n + k) (hul : u.vals.length = urows.length)
+    (huty : ∀ v ∈ u.vals, ∃ b, v = .bool b) :
+    ∃ res, updateColumn (List.range (n + k)) (reindexCol (List.range n) (List.range (n + k)) true old) urows u true
+        = .ok res ∧
+      res.name = old.name ∧ res.dtype = .bool ∧
+      (∀ r, r < n → cellOf (List.range (n + k)) res.cells r = cellOf (List.range n) old.cells r) ∧
+      (∀ r ∈ urows, cellOf (List.range (n + k)) res.cells r = cellOf urows u.vals r) := by
+  let base : List Val := (List.range (n + k)).map (fun r => (cellOf (List.range n) old.cells r).getD .null)
+  have hcells : (reindexCol (List.range n) (List.range (n + k)) true old).cells = base.map id := by
+    simp only [reindexCol, hd, base, List.map_map]
+    apply List.map_congr_left
+    intro r _
+    simp
+  have hud : ∀ v, (∃ b, v = Val.bool b) → toBool (id v) = .ok v := by
+    rintro v ⟨b, rfl⟩
+    rfl
+  have hbase : ∀ r ∈ List.range (n + k), r ∉ urows →
+      ∃ v, cellOf (List.range (n + k)) base r = some v ∧ ∃ b, v = Val.bool b := by
+    intro r hr hnu
+    have hr' : r < n + k := List.mem_range.mp hr
+    have hrn : r < n := by
+      have : ¬ (n ≤ r ∧ r < n + k) := fun h => hnu ((hcover r).mpr h)
+      omega
+    obtain ⟨v, hv⟩ := cellOf_isSome (List.mem_range.mpr hrn) (by rw [hl, List.length_range])
+    refine ⟨v, ?_, hty v (mem_of_cellOf hv)⟩
+    rw [cellOf_range_map _ hr', hv]; rfl
+  obtain ⟨out, hout, _, hcell⟩ := fill_roundtrip hud List.nodup_range (by simp [base]) hund
+    (fun r hr => List.mem_range.mpr ((hcover r).mp hr).2) hul hbase huty
+  refine ⟨⟨old.name, .bool, out⟩, ?_, rfl, rfl, ?_, ?_⟩
+  · unfold updateColumn
+    have hcd : (reindexCol (List.range n) (List.range (n + k)) true old).dtype = .obj := by
+      simp [reindexCol, hd, promote]
+    rw [hcd, hu, hcells]
+    simp only [List.map_id] at hout ⊢
+    simp only [reduceCtorEq, if_false, Bool.not_true, Bool.false_eq_true, hout]
+    rfl
+  · intro r hr
+    have hnu : r ∉ urows := fun h => by have := (hcover r).mp h; omega
+    rw [hcell r, if_neg hnu, cellOf_range_map _ (by omega : r < n + k)]
+    obtain ⟨v, hv⟩ := cellOf_isSome (List.mem_range.mpr hr) (by rw [hl, List.length_range] : old.cells.length = (List.range n).length)
+    rw [hv]; rfl
+  · intro r hr
+    rw [hcell r, if_pos hr]
+
+/-! ### Non-vacuity: a whole birth, run by the model -/
+
+def exTable : Table :=
+  ⟨[0, 1], [⟨"tracked", .bool, [.bool true, .bool false]⟩, ⟨"x", .int, [.int 4, .int 5]⟩, ⟨"y", .str, [.str "p", .null]⟩]⟩
+def exM : Mgr := { pop := some exTable }
+
+example : exM.table.WF := ⟨by decide, by decide, by decide⟩
+example : exM.table.rows = List.range 2 := rfl
+def exGrown : Table :=
+  ⟨[0, 1, 2, 3], [⟨"tracked", .obj, [.bool true, .bool false, .null, .null]⟩,
+                  ⟨"x", .flt, [.flt 4 0, .flt 5 0, .null, .null]⟩, ⟨"y", .str, [.str "p", .null, .null, .null]⟩]⟩
+def exDone : Table :=
+  ⟨[0, 1, 2, 3], [⟨"tracked", .bool, [.bool true, .bool false, .bool true, .bool true]⟩,
+                  ⟨"x", .int, [.int 4, .int 5, .int 6, .int 7]⟩, ⟨"y", .str, [.str "p", .null, .str "q", .str "r"]⟩]⟩
+/-- while the birth is in progress the int column shows 4.0, 5.0, NaN and `tracked` is `object` -/
+example : createBegin exM 2 = ({ pop := some exGrown, initial := false, adding := true }, [2, 3]) := by decide
+/-- the manager's initializer and a component's initializer fill the new rows; afterwards the old rows
+and the dtypes are exactly what they were -/
+example :
+    (runOps exM [.create 2, .upd trackedView (trackedInit [2, 3]),
+                 .upd (mkView ["x", "y"] .tt) (.frame [3, 2] [⟨"x", .int, [.int 7, .int 6]⟩, ⟨"y", .str, [.str "r", .str "q"]⟩]),
+                 .endCreate]) = ({ pop := some exDone }, [[2, 3]]) := by decide
+/-- a second component supplying other values for `x` at the same birth -/
+example : (applyUpdate
+    (runOps exM [.create 1, .upd trackedView (trackedInit [2]),
+                 .upd (mkView ["x"] .tt) (.frame [2] [⟨"x", .int, [.int 6]⟩])]).1
+    (mkView ["x"] .tt) (.frame [2] [⟨"x", .int, [.int 9]⟩])).2 = some .conflict := by decide
+/-- an initializer that brings a new column at a birth -/
+example : (applyUpdate (createBegin exM 1).1 (mkView ["x", "zz"] .tt)
+    (.frame [2] [⟨"x", .int, [.int 6]⟩, ⟨"zz", .int, [.int 1]⟩])).2 = some .newColumn := by decide
+/-- the initial creation: new columns accepted, conflicting ones rejected -/
+example : (runOps {} [.create 2, .upd trackedView (trackedInit [0, 1]),
+    .upd (mkView ["x"] .tt) (.frame [0, 1] [⟨"x", .int, [.int 1, .int 2]⟩]),
+    .upd (mkView ["y", "x"] .tt) (.frame [0, 1] [⟨"y", .int, [.int 0, .int 0]⟩, ⟨"x", .int, [.int 1, .int 3]⟩]),
+    .endCreate]).1.table.names = ["tracked", "x"] := by decide
 
 end Viv.Props.C13
